@@ -294,7 +294,40 @@ def deep_pairs(ctx):
                 ctx.violation("different-structure-same-hash:deep", f"two chains of {n} operators differing in {tag} hash the same ({ha})", {"deep": n, "tag": tag})
 
 
+def hand_built_annotated(ctx):
+    """queries with nodes built by hand without their ctx field (what code that assembles queries writes), carrying the dataset
+    object on the EventDataset() node the way real queries do: hashing must not copy or touch what hangs on the nodes, the
+    annotation must not change the hash"""
+    import ast
+
+    from func_adl.ast.ast_hash import calc_ast_hash
+
+    def build(with_ctx):
+        kw = {"ctx": ast.Load()} if with_ctx else {}
+        e = ast.Name(id="e", **kw)
+        lam = ast.Lambda(args=ast.arguments(posonlyargs=[], args=[ast.arg(arg="e")], kwonlyargs=[], kw_defaults=[], defaults=[]),
+                         body=ast.Attribute(value=e, attr="pt", **kw))
+        ds = ast.Call(func=ast.Name(id="EventDataset", **kw), args=[], keywords=[])
+        return ast.Call(func=ast.Name(id="Select", **kw), args=[ds, lam], keywords=[])
+
+    for with_ctx in (True, False):
+        plain, annotated = build(with_ctx), build(with_ctx)
+        obj = astx.attach_object(annotated)
+        annotated._q_metadata = {"marker": astx.Uncopyable()}
+        ctx.case(f"hand-built-annotated:ctx={with_ctx}", True)
+        try:
+            h1, h2 = calc_ast_hash(plain), calc_ast_hash(annotated)
+        except Exception as e:
+            ctx.violation(f"exc:{type(e).__name__}:annotated", f"hashing a hand-built query (ctx fields {'present' if with_ctx else 'left out'}) that carries its dataset object raised {type(e).__name__}: {e}", {"hand_built": with_ctx})
+            continue
+        if h1 != h2 or obj.copied or annotated._q_metadata["marker"].copied:
+            ctx.violation("annotation-changes-the-hash", f"hand-built query, ctx {'present' if with_ctx else 'left out'}: hash without / with node annotations {h1} / {h2}; objects on the nodes copied {obj.copied}x", {"hand_built": with_ctx})
+        ctx.count("hand-built-annotated-queries")
+
+
 def shard_main(ctx):
+    if ctx.shard == 0:
+        hand_built_annotated(ctx)
     if ctx.shard in (0, 1, 3):
         deep_pairs(ctx)
     if ctx.shard == 1 % ctx.nshards and ctx.tier == "thorough":
@@ -452,6 +485,9 @@ def shard_main(ctx):
 
 
 def replay(ctx, witness):
+    if "hand_built" in witness:
+        hand_built_annotated(ctx)
+        return
     table = Table(ctx)
     if "hashseed" in witness:
         cross_process(ctx, table)
